@@ -15,6 +15,7 @@ type Shape struct {
 	Layers     int    // layers per image
 	Share      bool   // share layers between platforms
 	DupLayer   bool   // the same layer listed twice in one image
+	DupTimes   int    // further repetitions of that layer (many goroutines ask for one blob at the same instant)
 	EmptyBlob  bool   // one zero-length layer
 	Inline     bool   // inline data on some descriptor
 	BlobEntry  bool   // index carries a blob-typed entry
@@ -95,6 +96,9 @@ func Random(rng *rand.Rand, alg string, s Shape, topTag string) *Graph {
 		}
 		if s.DupLayer && len(ls) > 0 {
 			ls = append(ls, ls[0])
+			for k := 0; k < s.DupTimes; k++ {
+				ls = append(ls, ls[0])
+			}
 		}
 		if s.EmptyBlob && i == 0 {
 			_, _, _, lmt := mts(f)
